@@ -31,7 +31,77 @@ def run(rep, tier):
                          f"for every optimizer x task prototype x integer seed: the run after each ambient history "
                          f"{AMBIENT} and the run in a fresh subprocess (random PYTHONHASHSEED) must all give the same "
                          "result; stdlib random / unseeded generators / os.urandom are tripwired", memo_hit=j.get('memo_hit'))
+    run_multitask_trials(rep, tier)
     # the escape monitor ran on every execution of the shared sweep as well
     js = use_shared(rep, tier)
     rep.assume("serial mode (as the property states)", "numpy-valid integer seeds",
                "distinct results per optimizer = distinct (prototype, seed) outcomes, reported as distinct_end_results")
+
+
+def run_multitask_trials(rep, tier):
+    """seeded serial trials launched concurrently by Multitask must each reproduce the direct seeded run, whatever pool
+    Multitask uses: should the trials run on threads of one process, every interleaving of their random draws with at
+    most one pre-emption is explored (interleaved scheduler); with the process pool there is a single schedule"""
+    import contextlib
+    import io
+    import concurrent.futures as cf
+    from pyvolutionary import Multitask
+    from .. import harness, interleave, pools, seams, tasks
+    from ..seams import CTL
+    n_sched = 0
+    finds = {}
+    outcomes = set()
+    seams.install()
+    try:
+        for optname in ('GreyWolfOptimization', 'ParticleSwarmOptimization'):
+            over = {'max_cycles': 1, 'fitness_error': None, 'population_size': 8}
+
+            def direct():
+                CTL.reset({}, 3)
+                o = registry.make(optname, **over)
+                t = tasks.make_task('cont3z', seed=42)
+                with contextlib.redirect_stdout(io.StringIO()):
+                    return harness.canon_result(o.optimize(t))
+            want = direct()
+
+            def body():
+                CTL.reset({}, 3)
+                o = registry.make(optname, **over)
+                t = tasks.make_task('cont3z', seed=42)
+                mt = Multitask((o,), (t,), modes=('serial',))
+                with contextlib.redirect_stdout(io.StringIO()):
+                    mt.execute(n_trials=2)
+                return [harness.canon_result(cell['solution']) for cell in mt._df2[0].iloc[:, 0]]
+
+            def on_exec(res, sc, choices):
+                nonlocal n_sched
+                n_sched += 1
+                outcomes.add(harness.h8(res))
+                for k, r in enumerate(res):
+                    if r != want:
+                        finds.setdefault(f"C07|{optname}|seeded-trial-launched-by-Multitask-differs-from-the-direct-run",
+                                         (f"trial {k + 1} under schedule {choices[:20]} differs from optimize() with the same seed",
+                                          {'part': 'multitask'}))
+            # the process pool (what the library uses today) is modelled atomically; a thread pool is interleaved
+            saved = cf.ProcessPoolExecutor
+            cf.ProcessPoolExecutor = pools.ModelProcessPool
+            try:
+                interleave.explore(body, 1, on_execution=on_exec, max_executions=400 if tier == 'quick' else 4000)
+            finally:
+                cf.ProcessPoolExecutor = saved
+                CTL.active = False
+    finally:
+        seams.uninstall()
+    for key, (detail, case) in finds.items():
+        rep.finding(key, detail, {'kind': 'e3', 'module': 'c07', 'case': case})
+    rep.part('multitask-trials', n_sched, len(outcomes), states=len(outcomes), transitions=n_sched, validated=n_sched,
+             samples=[{'optimizers': ['GreyWolf', 'ParticleSwarm'], 'task_seed': 42, 'n_trials': 2, 'schedules': n_sched}],
+             rule="Multitask.execute(n_trials=2) on a seeded task in serial mode: each trial must equal the direct seeded run; "
+                  "if the trials share a process (threads) all interleavings of their draws with <= 1 pre-emption are explored")
+
+
+def replay(case):
+    from ..report import Reporter
+    rep = Reporter('C07', 'quick')
+    run_multitask_trials(rep, 'quick')
+    return rep.findings
